@@ -33,7 +33,9 @@ func checkC05(c *Ctx) {
 	c.Rule("C05-R4", "every constructed Event has its timestamp set (time.Now()/SetEventNow); an embedded *EventTime is non-nil")
 	c.Rule("C05-R5", "ChannelEvents closes its channel on every exit (deferred close in the entry block)")
 	c.Rule("C05-R6", "an input chunk queued for the parser goroutine owns its backing array (allocated per chunk): queued input cannot be overwritten by a later read")
+	c.Rule("C05-R7", "ChannelEvents holds at most one event: after receiving from the event queue it sends that event on the caller's channel (or returns) before it can receive again")
 	c.Expect("C05-R6", 1)
+	c.Expect("C05-R7", 1)
 	c.Expect("C05-R1", 6)
 	c.Expect("C05-R2", 2)
 	c.Expect("C05-R3", 5)
@@ -350,6 +352,78 @@ func c05Channel(c *Ctx, p *Prog) {
 		}
 	}
 	c.Check(ok, "C05-R5", "ChannelEvents:defer-close(ch)", p.pos(fn.Pos()), "close of the caller's channel is deferred in the entry block")
+	c05Forward(c, p, fn)
+}
+
+// c05Forward: a forwarder that can take a second event from the queue while
+// the first is still waiting to be sent loses the first.  From the case block
+// of every receive on the event queue, every path must reach the send-case of a
+// select that sends the received value on the caller's channel, or a return,
+// before it reaches a receive on the event queue again.
+func c05Forward(c *Ctx, p *Prog, fn *ssa.Function) {
+	type recvSite struct {
+		sel *ssa.Select
+		idx int
+	}
+	var recvs []recvSite
+	isEventQ := func(v ssa.Value) bool { return chanName(v, nil, 0) == "iface.EventQ()" }
+	recvBlocks := map[*ssa.BasicBlock]bool{}
+	type edge struct{ from, to *ssa.BasicBlock }
+	sendEdge := map[edge]bool{}
+	bareRecv := false
+	eachInstr(fn, func(in ssa.Instruction) {
+		switch x := in.(type) {
+		case *ssa.Select:
+			for i, st := range x.States {
+				if st.Dir == types.RecvOnly && isEventQ(st.Chan) {
+					recvs = append(recvs, recvSite{x, i})
+					recvBlocks[x.Block()] = true
+				}
+				if st.Dir == types.SendOnly && len(fn.Params) > 1 && (st.Chan == ssa.Value(fn.Params[1]) || derivesFrom(st.Chan, fn.Params[1], 0)) {
+					if from := selectCaseTest(x, i); from != nil {
+						sendEdge[edge{from, from.Succs[0]}] = true
+					}
+				}
+			}
+		case *ssa.UnOp:
+			if x.Op == token.ARROW && isEventQ(x.X) {
+				bareRecv = true
+				recvBlocks[x.Block()] = true
+			}
+		}
+	})
+	if len(recvs) == 0 && !bareRecv {
+		c.Undecided("C05-R7", "ChannelEvents:forwards-before-next-receive", p.pos(fn.Pos()), "no receive on the event queue found")
+		return
+	}
+	bad := ""
+	for _, r := range recvs {
+		start := selectCaseBlock(r.sel, r.idx)
+		if start == nil {
+			bad += "case block of the receive not found; "
+			continue
+		}
+		seen := map[*ssa.BasicBlock]bool{}
+		stack := []*ssa.BasicBlock{start}
+		for len(stack) > 0 {
+			b := stack[len(stack)-1]
+			stack = stack[:len(stack)-1]
+			if seen[b] {
+				continue
+			}
+			seen[b] = true
+			if recvBlocks[b] {
+				bad += fmt.Sprintf("after the receive at %s control can reach the receive in block %d (%s) without having sent the event; ", p.pos(r.sel.Pos()), b.Index, p.pos(firstPos(b)))
+				break
+			}
+			for _, sc := range b.Succs {
+				if !sendEdge[edge{b, sc}] {
+					stack = append(stack, sc)
+				}
+			}
+		}
+	}
+	c.Check(bad == "", "C05-R7", "ChannelEvents:forwards-before-next-receive", p.pos(fn.Pos()), fmt.Sprintf("%d receive(s) on the event queue, each followed by the send of that event or a return on every path %s", len(recvs), bad))
 }
 
 // c05Events: every allocation of an Event type sets its time.
@@ -491,4 +565,31 @@ func derivesFrom(v ssa.Value, base ssa.Value, d int) bool {
 		return derivesFrom(x.X, base, d+1)
 	}
 	return false
+}
+
+// selectCaseTest returns the block ending in `if index == idx`, whose true
+// successor is the body of that select case (the body may be empty, in which
+// case the successor is whatever follows the select).
+func selectCaseTest(sel *ssa.Select, idx int) *ssa.BasicBlock {
+	for _, r := range referrers(sel) {
+		ex, ok := r.(*ssa.Extract)
+		if !ok || ex.Index != 0 {
+			continue
+		}
+		for _, r2 := range referrers(ex) {
+			bo, ok := r2.(*ssa.BinOp)
+			if !ok || bo.Op != token.EQL {
+				continue
+			}
+			if k, ok := constInt(bo.Y); !ok || int(k) != idx {
+				continue
+			}
+			for _, r3 := range referrers(bo) {
+				if iff, ok := r3.(*ssa.If); ok {
+					return iff.Block()
+				}
+			}
+		}
+	}
+	return nil
 }
